@@ -12,9 +12,12 @@ package redisemu
 //@ pred ctxOK(ctx *cmdContext) = ctx != nil && ctx.cs != nil && ctx.dsc != nil && ctx.dsc.ds != nil && ctx.cd != nil && ctx.dsc.ds.data != nil && ctx.dsc.ds.waitingClients != nil && !ctx.dsc.ds.data.scratch
 
 //@ func clientState.setMultiInProgress
-//@ trusted sets one flag under cs.mu
+//@ prop C09 C16
+//@ guards on
+//@ safetyprop none
 //@ requires cs != nil
-//@ modifies clientState.multiInProgress
+//@ modifies cs->multiInProgress ghost.mutexHeld
+//@ ensures [C09,C16] flag.set: cs.multiInProgress == inProgress
 
 //@ func isAbortedExecUnlocked
 //@ prop C10 C14 C09
@@ -234,5 +237,9 @@ package redisemu
 //@ assertbefore "atomic.S" [C12,C13,C20] word.owner.only: locked != CS_CHECKING
 
 //@ func clientState.isMultiInProgress
-//@ trusted reads one flag under cs.mu
-//@ pure
+//@ prop C09 C16
+//@ guards on
+//@ safetyprop none
+//@ requires cs != nil
+//@ modifies ghost.mutexHeld
+//@ ensures [C09,C16] flag.read: result == cs.multiInProgress
